@@ -22,8 +22,11 @@ def list_cases(sh):
         v, qs = c01.queries('quick', seed)
         pt = list(qcheck.tables_upto(v['rows'], 2))
         jt = list(qcheck.tables_upto(v['jrows'], 2))
+        w12 = [['c%d' % i for i in range(1, 13)], ['d%d' % i for i in range(1, 13)], ['e%d' % i for i in range(1, 12)]]
         for kind, q in qs[sh['lo']:sh['hi']]:
             if kind == 'wide':
+                for A in qcheck.tables_upto(w12, 2):
+                    yield q, A, None, None
                 continue
             if kind == 'plain':
                 for A in pt[::sh['stride']]:
